@@ -37,8 +37,27 @@ def rule_dtype(model: Model, funcs):
                                                                               "torchtt._extras.zeros", "torchtt._extras.eye"):
                 kw = {k.arg: k.value for k in n.keywords}
                 k = f"{fs}:DTYPE:{norm(n)[:70]}"
-                if "dtype" in kw and (".dtype" in norm(kw["dtype"]) or norm(kw["dtype"]) == "dtype"):
+                def derived(e, depth=0):
+                    """True: the dtype expression reads an operand's dtype; False: it is a fixed torch dtype; None: not known"""
+                    t = norm(e)
+                    if ".dtype" in t or t == "dtype":
+                        return True
+                    if isinstance(e, ast.Name) and depth < 3:
+                        defs = [a.value for a in ast.walk(f.node) if isinstance(a, ast.Assign) and len(a.targets) == 1 and isinstance(a.targets[0], ast.Name)
+                                and a.targets[0].id == e.id]
+                        if defs:
+                            res = [derived(d, depth + 1) for d in defs]
+                            return True if all(r is True for r in res) else (False if any(r is False for r in res) else None)
+                        return None
+                    r = model.resolve(f.module, e) if isinstance(e, (ast.Attribute, ast.Name)) else None
+                    if r and r.startswith("torch.") and r.rsplit(".", 1)[-1] in ("float64", "float32", "float16", "double", "float", "complex128", "complex64", "int64", "int32"):
+                        return False
+                    return None
+                dv = derived(kw["dtype"]) if "dtype" in kw else None
+                if "dtype" in kw and dv is True:
                     obs.append(Ob("DTYPE", k, OK, model.where(f, n), norm(n)[:100], "dtype taken from an operand core"))
+                elif "dtype" in kw and dv is None:
+                    obs.append(Ob("DTYPE", k, INFO, model.where(f, n), norm(n)[:100], "dtype given by an expression this rule does not resolve (the dense counterpart is decided by E5)"))
                 elif "dtype" in kw:
                     obs.append(Ob("DTYPE", k, VIOLATED, model.where(f, n), norm(n)[:100],
                                   f"constant created with the fixed dtype `{norm(kw['dtype'])}`: combined with the operand's cores it "
